@@ -794,8 +794,14 @@ class _DeleteState(_PostSortRec):
         ]
         recs.difference_update(our_recs)
         states = [self.state] + [r.state for r in our_recs]
+        # a state whose delete was turned "list only" by a row switch
+        # (remove_state_actions()) has been UPDATEd in place by the
+        # replacing object and must not be deleted, the same filter that
+        # _DeleteAll applies via states_for_mapper_hierarchy()
         persistence._delete_obj(
-            mapper, [s for s in states if uow.states[s][0]], uow
+            mapper,
+            [s for s in states if uow.states[s] == (True, False)],
+            uow,
         )
 
     def __repr__(self):
